@@ -18,7 +18,7 @@ LEVEL = "exploration"
 SHARDS = {"quick": 1, "thorough": 16}
 REQUIRED = ("families_with_counted_sequences_of_possibly_empty_elements", "families_ending_in_an_odd_width_int", "prefix_cases", "suffix_cases", "failing_cases_shifted", "values_compared", "end_offsets_compared",
             "raw_slice_equivalence", "hostile_pre_with_delimiters", "nested_families", "moves_under_offset",
-            "inputs_of_declarations_with_a_position_before_the_wrapper", "same_object_reparses", "corrupted_inputs", "steering_bytes_swept_over_small_negative_values")
+            "inputs_of_declarations_with_a_position_before_the_wrapper", "same_object_reparses", "page_boundary_prefix_cases", "corrupted_inputs", "steering_bytes_swept_over_small_negative_values")
 MIN_NONTRIVIAL = 150
 RULE = {
     "quick": "~140 families of mostly fixed-size fields placed back over consumed bytes (at / negative shift) + ~420 generated families (no 'begins' reference, no class align, no repeated(aligned=), no raw/offset callbacks) x 8 inputs x 4 "
@@ -114,6 +114,42 @@ def same_object_reparse(run, bench, rng, used, can_post):
                 break
 
 
+def page_boundary_prefixes(run, bench, rng, used):
+    """Prefixes of a few KiB whose length puts a byte boundary inside the record exactly on an absolute multiple of 4096 (and of
+    256): an in-place search that walks the buffer in blocks must find a delimiter that straddles the block edge.  Pure prefix
+    relation (no model, no suffix)."""
+    fam = bench.fam
+    if len(used) < 2:
+        return
+    delimited = any(f["t"] == "data" and f.get("mode") in ("marker", "regex") for d in fam["decls"].values() for f in d["fields"])
+    if not delimited and rng.random() > 0.15:
+        return
+    for v in ("g", "d"):
+        cls = bench.root(v)
+        base = summarize(fam, harness.lib_unpack(cls, used, 0))
+        if base[0] not in ("ok", "packeterror"):
+            continue
+        for j in rng.sample(range(1, len(used)), min(2, len(used) - 1)):
+            n = rng.choice([4096, 4096, 8192, 256]) - j
+            if n <= 0:
+                continue
+            kind, unit = hostile(rng, used, 48)
+            pre = (unit * (n // 48 + 1))[:n]
+            got = summarize(fam, harness.lib_unpack(cls, pre + used, n))
+            if got[0] == "timeout":
+                continue
+            run.count("page_boundary_prefix_cases")
+            if base[0] == "ok":
+                same = got[0] == "ok" and got[1] == base[1] and got[2] == base[2] + n
+            else:
+                same = got[0] == "packeterror" and got[1] == [(o + n, nm, c) for (o, nm, c) in base[1]]
+            if not same:
+                run.violation("the outcome changes behind a prefix that puts byte %d of the record on an absolute multiple of %d (pagepre:%s)" % (j, n + j, kind),
+                              {"source": driver.src_of(bench, v), "raw": b2j(used), "pre": b2j(pre), "post": b2j(b""), "variant": v,
+                               "padding": "pagepre:%s" % kind, "fam": fam, "alone": repr(base)[:300], "padded": repr(got)[:300]}, None)
+                break
+
+
 def one_input(run, bench, rng, raw, sampled):
     fam = bench.fam
     st, mr = harness.model_parse(fam, raw, 0)
@@ -203,6 +239,7 @@ def one_input(run, bench, rng, raw, sampled):
                                   dict(witness, alone=base[1], padded=got[1]), None)
                     continue
     same_object_reparse(run, bench, rng, used, can_post)
+    page_boundary_prefixes(run, bench, rng, used)
     if sampled[0] < 3 and st == "ok" and len(used) > 3:
         sampled[0] += 1
         run.sample({"source": driver.src_of(bench), "raw": used, "paddings": "pre / long pre / post / both, hostile content"})
